@@ -208,6 +208,17 @@ def fPrimOf (v : Json) : FR (String × String) :=
   else if let some (.bool b) := optField v "b" then pure ("bool", if b then "true" else "false")
   else funmodelled
 
+/-- is `anc` on the stored parent chain of `id` (or `id` itself) -/
+def onParentChain (h : Heap) : Nat → Id → Id → Bool
+  | 0, _, _ => false
+  | n+1, id, anc =>
+    if id == anc then true else
+    match h[id]? with
+    | some nd => (match nd.parent with
+      | some p => onParentChain h n p anc
+      | none => false)
+    | none => false
+
 /-- one operation; `none` = skipped (a register it needs is empty) -/
 def forestStep (h : Heap) (regs : Array (Option Id)) (op : Json) : FR (Heap × Array (Option Id)) := do
   let kind := strFieldD op "op" ""
@@ -240,6 +251,8 @@ def forestStep (h : Heap) (regs : Array (Option Id)) (op : Json) : FR (Heap × A
       | some rj => (match rj.getNat? with | .ok i => pure (h, regId i) | _ => throw "bad reg")
       | none => build pol regs h src none "")
     if !(fIsSub (← fnodeAt h1 frm)) then funmodelled
+    -- a config merged directly into its own descendant or ancestor changes under the iteration: not described
+    if onParentChain h1 64 (regId r) frm || onParentChain h1 64 frm (regId r) then funmodelled
     let h2 ← mergeCfgH pol h1 (regId r) frm
     pure (h2, regs)
   | "set" =>
